@@ -13,7 +13,7 @@ def Frame.lateBad (f : Frame) : Bool :=
 /-- a logged return of a late send that is not `SendErr` -/
 def Ret.lateBad (r : Ret) : Bool :=
   (match r.kind with | .send => true | _ => false) && r.late &&
-    (match r.res with | .sendErr => false | _ => true)
+    (match r.res with | .sendErr _ => false | _ => true)
 
 structure LateN (s : Shared) (L M : Nat) : Prop where
   late_closed : 0 < L → s.word.closed = true
